@@ -1,0 +1,20 @@
+//go:build verif
+
+package fastpath
+
+// Contracts for the root-relative path helpers used by the scanner (property
+// C13). Comment-only file: compiled only under the "verif" build tag, contains
+// no code. The "//@" lines are read by govc.
+
+// fdir names the function computed by Dir (a deterministic function of its
+// argument: clause "abs" is this definition, not a proved fact). What is
+// proved about it: the parent of a non-empty path is a strictly shorter prefix
+// of it, cut at its last '/'.
+//@ ufunc fdir(p string) string
+
+//@ func Dir
+//@   pure
+//@   maypanic
+//@   ensures[abs] result == fdir(path)
+//@   ensures[parent] len(result) < len(path) && forall i in 0..len(result) :: result[i] == path[i]
+//@   ensures[parent] (len(result) == 0 || path[len(result)] == '/') && forall i in len(result)+1..len(path) :: path[i] != '/'
